@@ -351,7 +351,12 @@ class Interp:
                 return v
             f = self.fns.get("const " + cand)
             if f is not None:
-                v = self.run_to_end(self.call_fn(f, [], path))
+                try:
+                    v = self.run_to_end(self.call_fn(f, [], path))
+                except (Infeasible, MirPanic):
+                    raise
+                except Exception:
+                    v = ("opaque", txt)      # a const whose initialiser is beyond the interpreter: only passed around
                 self.const_cache[key] = v
                 return v
         # associated consts: `const <impl at file:span>::NAME: T = { body }` referenced as `Type::NAME`
